@@ -328,9 +328,10 @@ class SpecCheck:
             "violations": len(violations),
         }
         self.extend_evidence(ev)
-        os.makedirs(EVIDENCE_DIR, exist_ok=True)
-        with open(os.path.join(EVIDENCE_DIR, self.pid + ".json"), "w") as f:
-            json.dump(ev, f, indent=1, sort_keys=True, default=str)
+        if not os.environ.get("VERIF_NOEVIDENCE"):   # (mutant trials must not overwrite real evidence)
+            os.makedirs(EVIDENCE_DIR, exist_ok=True)
+            with open(os.path.join(EVIDENCE_DIR, self.pid + ".json"), "w") as f:
+                json.dump(ev, f, indent=1, sort_keys=True, default=str)
         print("DONE property=%s specs=%d units=%d wall=%.1fs violations=%d known_hits=%s harness_errors=%d log=%s" % (
             self.pid, n_specs, evals, wall, len(violations), known_hits, len(harness_errors), log.hexdigest()[:16]), flush=True)
         if rc == 1:
@@ -370,8 +371,9 @@ class SpecCheck:
         return None
 
     def report(self, seed, tier, k, case, v):
-        os.makedirs(REPLAY_DIR, exist_ok=True)
-        path = os.path.join(REPLAY_DIR, "%s-%s-%s.json" % (self.pid, v.vclass, k if k is not None else "witness"))
+        rdir = os.path.join(REPLAY_DIR, "tmp") if os.environ.get("VERIF_NOEVIDENCE") else REPLAY_DIR
+        os.makedirs(rdir, exist_ok=True)
+        path = os.path.join(rdir, "%s-%s-%s.json" % (self.pid, v.vclass, k if k is not None else "witness"))
         doc = {"property": self.pid, "check": type(self).__module__, "tier": tier, "verif_seed": seed,
                "code_digest": orch.code_digest(), "violation_class": v.vclass, "detail": v.detail,
                "hash_seeds": v.hseeds}
